@@ -1,14 +1,29 @@
-import Vanguard.Lemmas.Serve
+import Vanguard.Lemmas.Outcome
 /-!
   C03 — Client gets a valid response in its own protocol with exactly one outcome.
 
-  Proved here (every state, end, client protocol): the end of an RPC is written at most once —
-  once `endWritten` holds, `reportEnd` (and so every later `reportError`) changes nothing; the head
-  is flushed at most once (`flushHeaders` is the identity once flushed); writing the end sets
-  `endWritten`.  The validity of the rendered response in the client's protocol is the oracle
-  `oracleC03`, evaluated on every implementation observation, and the model's own responses are
-  compared with the implementation's byte for byte (frames, end token, status, headers, trailers).
-  Partial: that the model's full response always satisfies `oracleC03` is not yet a theorem.
+  Proved here, for the model of `Transcoder.ServeHTTP` (`serve`), every world (codecs, compressors),
+  configuration, request, client body (any chunking, any end) and backend handler script (any sequence
+  of reads, header changes, `WriteHeader`, `Write`, `Flush`, `Close`; well-formed or not):
+
+  * **at most one end** (`at_most_one_end`): what the client receives contains at most one terminal
+    disposition - end-of-stream frames and error bodies in the body, a gRPC status in the headers
+    and a gRPC status in the trailers are counted together (`Sink.endMarks`), so success and error
+    are never both signalled and no second end follows the first;
+  * **nothing after the end** (`nothing_after_the_end`, `write_after_end_is_dropped`,
+    `close_after_end_changes_nothing`): once the end is written, no handler action - more writes,
+    reads that fail and report errors, header changes, closing - changes anything the client can
+    observe (status, headers as sent, live headers/trailers, body items, recorded status);
+  * **at least one end** (`completed_rpc_has_end`, `reported_error_ends`): when `ServeHTTP` returns
+    without a panic the end has been written, and every reported error ends the RPC;
+  * the invariant behind them (`Good`) holds initially and is kept by every step
+    (`script_keeps_good`, `close_keeps_good`).
+  The bookkeeping lemmas of the first version are kept (`end_reported_once`, ...).
+
+  The validity of the rendered response in the client's protocol (content type, envelope framing,
+  compression flags, Content-Length) is the oracle `oracleC03`, evaluated on every implementation
+  observation, and the model's responses are compared with the implementation's byte for byte.
+  Partial: that the model's full response always satisfies `oracleC03` is not a theorem.
 -/
 namespace Vanguard.C03
 open Vanguard
@@ -34,5 +49,55 @@ theorem head_flushed_once (w : World) (st : St) (h : st.rw.headersFlushed = true
 /-- Writing the end marks the RPC as ended. -/
 theorem write_end_marks_end (st : St) (e : RespEnd) (b : Bool) : (writeEnd st e b).rw.endWritten = true :=
   writeEnd_endWritten st e b
+
+/-! ### exactly one outcome, for whole runs -/
+
+/-- The invariant holds when a request starts. -/
+theorem good_start (o : Op) (src : Source) : Good { op := o, src := src, sink := {} } := good_init o src
+
+/-- Every handler script keeps the invariant. -/
+theorem script_keeps_good (w : World) (tb : Tables) (pl : HandlePlan) (script : List BOp) (total0 : Nat) (f : Flight)
+    (h : Good f.st) : Good (runScript w tb pl script total0 f).1.st :=
+  (runScript_ev w tb pl script total0 f h).1
+
+/-- Closing the response writer keeps the invariant. -/
+theorem close_keeps_good (w : World) (tb : Tables) (st : St) (h : Good st) : Good (rwClose w tb st).1 :=
+  (rwClose_ev w tb st h).1
+
+/-- **Nothing after the end.** Once the end of the RPC is written, no handler script changes what
+    the client observes. -/
+theorem nothing_after_the_end (w : World) (tb : Tables) (pl : HandlePlan) (script : List BOp) (total0 : Nat) (f : Flight)
+    (h : Good f.st) (he : f.st.rw.endWritten = true) :
+    SameWire f.st.sink (runScript w tb pl script total0 f).1.st.sink :=
+  ((runScript_ev w tb pl script total0 f h).2 he).1
+
+/-- A `Write` after the end reaches nobody. -/
+theorem write_after_end_is_dropped (w : World) (tb : Tables) (st : St) (data : Bytes)
+    (h : Good st) (he : st.rw.endWritten = true) : SameWire st.sink (rwWrite w tb st data).1.sink :=
+  ((rwWrite_ev w tb st data h).2 he).1
+
+/-- Closing after the end adds nothing (no second end, no data). -/
+theorem close_after_end_changes_nothing (w : World) (tb : Tables) (st : St)
+    (h : Good st) (he : st.rw.endWritten = true) : SameWire st.sink (rwClose w tb st).1.sink :=
+  ((rwClose_ev w tb st h).2 he).1
+
+/-- **At most one end**, for every request, configuration, client body and backend behaviour. -/
+theorem at_most_one_end (w : World) (sc : Scenario) : (serve w sc).sink.endMarks ≤ 1 := serve_marks w sc
+
+/-- **At least one end**: a `close` that returns has written the end. -/
+theorem completed_rpc_has_end (w : World) (tb : Tables) (st : St) (h : (rwClose w tb st).2 = false) :
+    (rwClose w tb st).1.rw.endWritten = true := rwClose_ends w tb st h
+
+/-- Every reported error ends the RPC. -/
+theorem reported_error_ends (w : World) (st : St) (err : Err) : (reportError w st err).1.rw.endWritten = true :=
+  reportError_ends w st err
+
+/-- The count is not vacuous: a body with two end-of-stream frames has two marks, a gRPC response
+    with a status in the headers and another one in the trailers has two marks. -/
+example : ({ items := [.raw [1], .endFrame 2 {}, .endFrame 2 {}] } : Sink).endMarks = 2 := by decide
+example : ({ hdrEndSet := true, trailerEndSet := true } : Sink).endMarks = 2 := by decide
+/-- ... and the invariant rejects a state that claims to be open while an end frame is out. -/
+example (o : Op) (src : Source) : ¬ Good { op := o, src := src, sink := { items := [.endFrame 2 {}] } } := by
+  intro h; have := h.opened rfl; simp [Sink.endMarks, Item.isEnd] at this
 
 end Vanguard.C03
